@@ -391,7 +391,14 @@ func registerMisc(e *Engine) {
 	mkRegex := func(m *Machine, pat Str, must bool) Value {
 		p, ok := pat.Const()
 		if !ok {
-			panic(abort("regexp.Compile of symbolic pattern"))
+			// a pattern given on the command line: assumed to compile (an invalid one is
+			// rejected by the tool at start-up); matching against it is not modelled
+			m.note("assumption: the --redactFieldsRegexp value is a valid regular expression")
+			o := &Opaque{kind: "regexp", data: &regexObj{pattern: "<symbolic>", id: -1}}
+			if must {
+				return o
+			}
+			return Tuple{o, Iface{}}
 		}
 		re, err := regexp.Compile(p)
 		if err != nil {
@@ -415,6 +422,9 @@ func registerMisc(e *Engine) {
 		}
 		ro := o.data.(*regexObj)
 		s := argStr(a[1])
+		if ro.re == nil {
+			panic(abort("MatchString on a symbolic pattern"))
+		}
 		if c, ok := s.Const(); ok {
 			return ro.re.MatchString(c)
 		}
@@ -485,12 +495,32 @@ func registerMisc(e *Engine) {
 		m.events = append(m.events, Event{Kind: "exit", Args: []Value{a[0]}})
 		panic(pathEnd{kind: "exit", code: a[0]})
 	}
+	in["time.Now"] = func(m *Machine, fr *frame, a []Value) Value {
+		m.atomSeq++
+		return &Opaque{kind: "time", data: fmt.Sprintf("now!%d", m.atomSeq)}
+	}
+	in["(time.Time).Unix"] = func(m *Machine, fr *frame, a []Value) Value {
+		o, ok := a[0].(*Opaque)
+		if !ok {
+			panic(abort("Time.Unix on unmodelled time value"))
+		}
+		t := TVar("time."+o.data.(string), SInt)
+		m.addPC(TCmp(">", t, TInt(1_000_000_000))) // contract: the clock is past 2001
+		m.addPC(TCmp("<", t, TInt(1<<40)))
+		m.recordInput("time."+o.data.(string), Num{t: t})
+		return Num{t: t}
+	}
 	in["os.Getenv"] = func(m *Machine, fr *frame, a []Value) Value {
 		name, ok := argStr(a[0]).Const()
 		if !ok {
 			panic(abort("os.Getenv symbolic name"))
 		}
 		if v, ok := m.inputs["env."+name]; ok {
+			return v
+		}
+		if m.job != nil && strings.Contains(","+m.job.Params["symenv"]+",", ","+name+",") {
+			v := mkStrT(TVar("env."+name, SStr))
+			m.recordInput("env."+name, v)
 			return v
 		}
 		// unset unless the harness provided it
